@@ -36,6 +36,8 @@ def shards(tier, seed):
 	for i in range(nh):
 		out.append(dict(name=f'hist-{i}', kind='hist', sub=i, nhist=40 if tier == 'quick' else 200, steps=60 if tier == 'quick' else 200))
 	out.append(dict(name='eq', kind='eq', n=300 if tier == 'quick' else 3000))
+	for kind in KINDS:
+		out.append(dict(name=f'long-{kind}', kind='long', ckind=kind, lens=[130, 300, 1100] if tier == 'quick' else [128, 129, 200, 257, 1000, 1001, 2300, 33000]))
 	if tier == 'thorough':
 		for i in range(8):
 			out.append(dict(name=f'rand-index-{i}', kind='randindex', sub=i, n=400))
@@ -118,6 +120,8 @@ class IndexChecker:
 		ctx.case((self.kind, len(self.L), cls, repr(idx), str(getattr(idx, 'dtype', ''))), nontrivial=len(expl) > 0)
 		ctx.count(f'class:{cls}')
 		before = idx.copy() if isinstance(idx, np.ndarray) else (list(idx) if isinstance(idx, list) else None)
+		snap = getattr(idx, 'verif_snapshot', None)   # buffer-sharing index objects (array.array, memoryview, __array__ providers)
+		snap0 = snap() if snap else None
 		try:
 			got = self.coll[idx]
 		except Exception as e:
@@ -127,6 +131,8 @@ class IndexChecker:
 			same = np.array_equal(idx, before) if isinstance(idx, np.ndarray) else idx == before
 			if not same:
 				ctx.violation('caller-index-modified', f'index array changed from {before!r} to {idx!r}', self.w(before))
+		if snap and snap() != snap0:
+			ctx.violation('caller-index-modified', f'{cls}: the caller\'s index object held {snap0!r} before indexing and {snap()!r} afterwards', self.w(snap0))
 		if not isinstance(got, self.ASA):
 			ctx.violation('sub-not-collection', f'{self.kind}[{idx!r}] is a {type(got).__name__}', self.w(idx))
 			return
@@ -145,8 +151,41 @@ class IndexChecker:
 			ctx.violation('sub-dtype-changed', f'sub-collection dtype {got.dtype} != {self.dt}', self.w(idx))
 
 
+def aliasing_cases(ic: IndexChecker, rng):
+	"""Immutable sequences: a sub-collection / item obtained earlier keeps its content whatever is indexed afterwards."""
+	L, n, ctx = ic.L, len(ic.L), ic.ctx
+	if n < 2:
+		return
+	def rnd_index():
+		c = rng.random()
+		if c < 0.4:
+			a = rng.randrange(n); b = rng.randrange(a, n) + 1
+			return slice(a, b), L[a:b]
+		if c < 0.7:
+			l = [rng.randrange(n) for _ in range(rng.randint(1, n))]
+			return l, [L[i] for i in l]
+		m = np.array([rng.random() < 0.6 for _ in range(n)])
+		return m, [L[i] for i in range(n) if m[i]]
+	for _ in range(25):
+		held = []
+		for _ in range(rng.randint(2, 4)):
+			idx, exp = rnd_index()
+			try:
+				held.append((idx, exp, ic.coll[idx]))
+			except Exception as e:
+				ctx.violation('valid-index-raises:aliasing', f'{ic.kind}[{idx!r}] raised {type(e).__name__}: {e}', ic.w(idx)); return
+		ctx.case((ic.kind, n, 'aliasing', repr([h[0] for h in held])), nontrivial=True)
+		ctx.count('class:aliasing')
+		for idx, exp, got in held:
+			items = [got[i] for i in range(len(got))]
+			if len(items) != len(exp) or not all(np.array_equal(g, e) for g, e in zip(items, exp)):
+				ctx.violation('sub-collection-changed-after-later-indexing', f'{ic.kind}[{idx!r}] was correct when taken but reads {[x.tolist() for x in items][:4]} after other sub-collections were taken; expected {[e.tolist() for e in exp][:4]}', ic.w(idx))
+				return
+
+
 def all_index_cases(ic: IndexChecker, rng):
 	L, n = ic.L, len(ic.L)
+	aliasing_cases(ic, rng)
 	# ---- integers -------------------------------------------------------------------------------
 	for i in range(-n - 2, n + 3):
 		variants = [('int', i)]
@@ -234,6 +273,118 @@ def run_index(sh, ctx):
 			all_index_cases(ic, rng)
 			if rep == 0:
 				ctx.samples.append(dict(kind=kind, n=n, dtype=dt, signatures=[s.tolist() for s in sigs], example='coll[slice(-1, None, -2)] compared with list model'))
+		finally:
+			closer()
+
+
+# ---- long collections: narrow index dtypes, buffer-sharing index objects, iteration past the chunk size -------------------------
+
+import array as _array
+
+
+class ArrayQ(_array.array):
+	"""array.array('q'): NumPy reads it through the buffer protocol, so np.asarray(x) shares the caller's memory."""
+	def verif_snapshot(self):
+		return self.tolist()
+
+
+class HasArray:
+	"""What a pandas Series / xarray object looks like to NumPy: __array__ hands out the object's own storage."""
+	def __init__(self, seq, dt):
+		self._a = np.array(seq, dtype=dt)
+	def __array__(self, dtype=None, copy=None):
+		return self._a
+	def __len__(self):
+		return len(self._a)
+	def __repr__(self):
+		return f'HasArray({self._a.tolist()}, {self._a.dtype})'
+	def verif_snapshot(self):
+		return self._a.tolist()
+
+
+def run_long(sh, ctx):
+	from gambit.kmers import KmerSpec
+	from gambit.sigs.base import SignatureArray, SignatureList, sigarray_eq
+	rng = random.Random(f'C20-long-{ctx.seed}-{sh["name"]}')
+	kind = sh['ckind']
+	ks = KmerSpec(9, 'AT')
+	for n in sh['lens']:
+		dt = rng.choice(['u2', 'u4', 'u8'])
+		# signature i holds i-dependent values, a few are empty: a shifted or wrapped position is always visible
+		sigs = [np.array(sorted({(7 * i + j * j) % 60000 for j in range(i % 4)} | ({i % 60000} if i % 11 else set())), dtype=dt) for i in range(n)]
+		coll, closer = build(kind, sigs, ks, dt, ctx, f'long-{kind}-{n}')
+		try:
+			L = sigs
+			ic = IndexChecker(ctx, coll, L, ks, dt, kind)
+			ctx.count(f'long-n:{n}')
+			# integer arrays of every width: positions near both ends, negative and positive, as far as the dtype can express them
+			for dtn in INT_DTYPES:
+				d = np.dtype(dtn); info = np.iinfo(d)
+				cand = [-n, -n + 1, -n // 2, -129, -128, -127, -5, -1, 0, 1, 5, 126, 127, 128, 129, 255, 256, n // 2, n - 2, n - 1]
+				cand = sorted({c for c in cand if -n <= c < n and info.min <= c <= info.max})
+				for _ in range(6 if ctx.tier == 'quick' else 20):
+					seq = [rng.choice(cand) for _ in range(rng.randint(1, 6))]
+					ic.expect_sub(np.array(seq, dtype=d), [L[i] for i in seq], f'long-intarray:{dtn}')
+					if any(i < 0 for i in seq):
+						ctx.count(f'long-negative:{dtn}')
+				for c in cand:
+					ic.expect_item(d.type(c), L[c], f'long-int:{dtn}')
+			# out of range must still raise for each width that can express it
+			for dtn in INT_DTYPES:
+				info = np.iinfo(np.dtype(dtn))
+				for bad in (n, -n - 1, n + 100):
+					if info.min <= bad <= info.max:
+						ic.expect_raise(np.array([0, bad], dtype=dtn), f'long-intarray-oob:{dtn}')
+			# index objects whose memory NumPy shares: must select like a list and must be left unmodified
+			for _ in range(8 if ctx.tier == 'quick' else 30):
+				seq = [rng.randrange(-n, n) for _ in range(rng.randint(1, 6))] + [-1]
+				rng.shuffle(seq)
+				exp = [L[i] for i in seq]
+				ic.expect_sub(ArrayQ('q', seq), exp, 'shared-buffer:array.array')
+				ic.expect_sub(HasArray(seq, 'i8'), exp, 'shared-buffer:__array__')
+				ic.expect_sub(HasArray(seq, 'i4'), exp, 'shared-buffer:__array__')
+				ic.expect_sub(tuple(seq) if False else list(seq), exp, 'intlist')
+			# slices and masks at this length
+			for _ in range(10 if ctx.tier == 'quick' else 40):
+				s = slice(rng.choice([None, rng.randint(-n - 3, n + 3)]), rng.choice([None, rng.randint(-n - 3, n + 3)]), rng.choice([None, 1, -1, 2, -3, 127, -128, 1000, -1001]))
+				if len(L[s]) <= 400:
+					ic.expect_sub(s, L[s], 'long-slice')
+			m = np.zeros(n, dtype=bool); m[[rng.randrange(n) for _ in range(12)]] = True; m[n - 1] = True
+			ic.expect_sub(m, [L[i] for i in range(n) if m[i]], 'long-mask')
+			# iteration, conversion and equality walk every position (file-backed collections read in pieces past some sizes)
+			ctx.case(('long-iter', kind, n), nontrivial=True); ctx.count('class:long-iter')
+			it = list(coll)
+			bad = [i for i in range(n) if i >= len(it) or not np.array_equal(it[i], L[i])]
+			if len(it) != n or bad:
+				ctx.violation('iteration-differs-from-indexing', f'list({kind} of {n}) has {len(it)} items; first differing position {bad[:1]}', dict(kind=kind, n=n, first_bad=bad[:3]))
+			for ctor, nm in ((SignatureList, 'SignatureList'), (SignatureArray, 'SignatureArray')):
+				try:
+					c2 = ctor(coll)
+				except Exception as e:
+					ctx.violation('construct-from-collection-raises', f'{nm}({kind} of {n}) raised {type(e).__name__}: {e}', dict(kind=kind, n=n)); continue
+				ctx.evals += 1
+				bad = [i for i in range(n) if not np.array_equal(c2[i], L[i])] if len(c2) == n else ['len']
+				if bad:
+					ctx.violation('construct-from-collection-wrong', f'{nm}({kind} of {n}) differs at {bad[:3]}', dict(kind=kind, n=n, ctor=nm))
+			same = SignatureList(list(L), ks, dtype=np.dtype(dt))
+			diff_last = SignatureList(list(L[:-1]) + [np.array(sorted(set(L[-1].tolist()) ^ {59999}), dtype=dt)], ks, dtype=np.dtype(dt))
+			for other, exp_eq, nm in ((same, True, 'equal-content'), (diff_last, False, 'differs-in-last-signature')):
+				ctx.case(('long-eq', kind, n, nm), nontrivial=True); ctx.count(f'long-eq:{nm}')
+				for x, y in ((coll, other), (other, coll)):
+					r = bool(x == y)
+					if r != exp_eq:
+						ctx.violation(f'eq-wrong:long-{nm}', f'{kind} of {n} signatures == list-backed collection ({nm}) is {r}', dict(kind=kind, n=n, case=nm))
+					if bool(sigarray_eq(x, y)) != exp_eq:
+						ctx.violation(f'eq-wrong:long-{nm}', f'sigarray_eq({kind} of {n}, list-backed {nm}) is {not exp_eq}', dict(kind=kind, n=n, case=nm))
+			if kind == 'hdf5' and n >= 2:
+				# two file-backed collections that differ only in the last position
+				other, closer2 = build('hdf5', list(diff_last), ks, dt, ctx, f'long-{kind}-{n}-b')
+				try:
+					ctx.count('long-eq:file-vs-file')
+					if bool(coll == other) or bool(other == coll):
+						ctx.violation('eq-wrong:long-file-vs-file', f'two file-backed collections of {n} signatures that differ in the last one compare equal', dict(n=n))
+				finally:
+					closer2()
 		finally:
 			closer()
 
@@ -434,13 +585,13 @@ def run_randindex(sh, ctx):
 
 
 def run_shard(sh, ctx):
-	{'index': run_index, 'hist': run_hist, 'eq': run_eq, 'randindex': run_randindex}[sh['kind']](sh, ctx)
+	{'index': run_index, 'hist': run_hist, 'eq': run_eq, 'randindex': run_randindex, 'long': run_long}[sh['kind']](sh, ctx)
 
 
 def finalize(merged, tier, seed, inconclusive):
 	c = merged['counters']
 	for n in ['class:slice', 'class:mask-ndarray', 'class:mask-wrong-length', 'class:intarray:u8', 'class:intarray:i1', 'class:int:np.u8', 'class:int-oob:int',
-	          'class:illtyped', 'class:slice-illtyped', 'histories', 'op:setslice', 'op:delslice', 'oob_mutations_refused', 'eq:same', 'eq:k', 'eq:prefix', 'eq:elem', 'eq:dtype']:
+	          'class:illtyped', 'class:slice-illtyped', 'class:aliasing', 'class:long-iter', 'class:shared-buffer:array.array', 'class:shared-buffer:__array__', 'long-negative:i1', 'long-negative:i2', 'long-eq:file-vs-file', 'histories', 'op:setslice', 'op:delslice', 'oob_mutations_refused', 'eq:same', 'eq:k', 'eq:prefix', 'eq:elem', 'eq:dtype']:
 		if c.get(n, 0) == 0:
 			inconclusive.append(f'class never observed: {n}')
 	return dict(exhaustive=True, exhaustive_note='index-* shards enumerate every int, slice and (for n<=5) mask over the stated ranges for collection lengths 0..7; histories and equality pairs are sampled')
